@@ -27,6 +27,10 @@ FIRST = {
     "C10-E": "missed", "C10-F": "caught",
     "C01-E": "caught", "C01-F": "missed (C16 caught)", "C02-E": "missed", "C02-F": "missed", "C03-E": "missed", "C03-F": "missed",
     "C07-E": "missed (C09, C11 caught)", "C07-F": "caught", "C12-E": "caught", "C12-F": "missed", "C19-C": "missed", "C19-D": "exit 2",
+    # sixth wave
+    "C04-E": "missed (C10, C12 caught)", "C04-F": "missed", "C08-E": "caught", "C08-F": "missed (C18 caught)", "C09-E": "caught", "C09-F": "caught",
+    "C11-E": "missed (C17 caught, C03 exit 2)", "C11-F": "missed (C07 caught)", "C15-E": "caught", "C15-F": "caught", "C16-E": "exit 2 (C18 caught)", "C16-F": "caught",
+    "C17-E": "caught", "C17-F": "caught", "C20-E": "missed", "C20-F": "exit 2",
 }
 
 
